@@ -83,7 +83,7 @@ Definition join_inside_full : Prop := forall cv, conv_ok cv -> forall f r st,
   is_subpath cv f (join cv [f; r]) st <> NotSub.
 Theorem C13_join_inside_refuted : ~ join_inside_full.
 Proof.
-  intros H. apply (H std_win (cv_std_ok _ _) (str_of "/") (str_of "c:x") false).
+  intros H. apply (H (cv_std true true) (conv_ok_cs (cv_std true true) eq_refl) (str_of "/") (str_of "c:x") false).
   - exists []. reflexivity.
   - vm_compute. discriminate.
   - vm_compute. reflexivity.
@@ -108,7 +108,7 @@ Definition prefix_sibling_full : Prop := forall cv, conv_ok cv -> forall f c s,
   is_subpath cv f (f ++ c :: s) false <> NotSub -> c = cv_sep cv \/ cv_alt cv = Some c \/ f = [cv_sep cv].
 Theorem C13_prefix_sibling_refuted : ~ prefix_sibling_full.
 Proof.
-  intros H. specialize (H std (cv_std_ok _ _) (str_of "/a/") 98%N [] ). vm_compute in H.
+  intros H. specialize (H std (conv_ok_cs std eq_refl) (str_of "/a/") 98%N [] ). vm_compute in H.
   destruct H as [H|[H|H]]; discriminate.
 Qed.
 Print Assumptions C13_prefix_sibling_refuted.
@@ -168,7 +168,7 @@ Definition replace_lands_inside_full : Prop := forall cv, conv_ok cv -> forall f
 Theorem C13_replace_lands_inside_refuted : ~ replace_lands_inside_full.
 Proof.
   intros H.
-  specialize (H std (cv_std_ok _ _) (str_of "/a") (str_of "/a/x") (str_of "/") (str_of "/x") (str_of "//x")).
+  specialize (H std (conv_ok_cs std eq_refl) (str_of "/a") (str_of "/a/x") (str_of "/") (str_of "/x") (str_of "//x")).
   vm_compute in H. specialize (H eq_refl). 
   assert (H' : Rel [47%N; 47%N; 120%N] = Rel [47%N; 120%N]) by (apply H; try reflexivity; discriminate).
   discriminate.
@@ -242,7 +242,7 @@ Definition match_case_display_full : Prop := forall cv, fold_ok cv -> forall p, 
   paths_match cv p (lower cv p) true = true.
 Theorem C13_match_case_display_refuted : ~ match_case_display_full.
 Proof.
-  intros H. specialize (H std_ci (fold_std_ok _ _) (str_of "/A") eq_refl). vm_compute in H. discriminate.
+  intros H. specialize (H cv_A fold_A_ok (str_of "/A") eq_refl). vm_compute in H. discriminate.
 Qed.
 Print Assumptions C13_match_case_display_refuted.
 
